@@ -131,6 +131,20 @@ impl<P: ConnectionProvider> NameServerPool<P> {
     }
 }
 
+/// The clock of the pool's end-to-end deadline.
+#[cfg(not(hickory_dns_verif))]
+#[inline]
+fn pool_now() -> Instant {
+    Instant::now()
+}
+
+/// The clock of the pool's end-to-end deadline; with `--cfg hickory_dns_verif` it follows
+/// tokio's (pausable) clock like every other timer in the stack.
+#[cfg(hickory_dns_verif)]
+fn pool_now() -> Instant {
+    tokio::time::Instant::now().into_std()
+}
+
 // Type alias for TTL unit tests to use tokio's time pause/advance
 #[cfg(not(feature = "tokio"))]
 type TtlInstant = Instant;
@@ -287,7 +301,7 @@ impl<P: ConnectionProvider> PoolState<P> {
         // configured timeout.  Without this, the pool can spend up to N × timeout (where N is the
         // number of servers) before returning an error — well past the point where clients have
         // given up and retransmitted the query.
-        let deadline = Instant::now() + self.cx.options.timeout;
+        let deadline = pool_now() + self.cx.options.timeout;
 
         let mut servers = VecDeque::from(servers);
         let mut backoff = Duration::from_millis(20);
@@ -297,7 +311,7 @@ impl<P: ConnectionProvider> PoolState<P> {
 
         loop {
             // Check the deadline before starting a new round of server attempts.
-            if Instant::now() >= deadline {
+            if pool_now() >= deadline {
                 return Err(NetError::Timeout);
             }
 
@@ -316,7 +330,7 @@ impl<P: ConnectionProvider> PoolState<P> {
             if par_servers.is_empty() {
                 if !busy.is_empty() && backoff < Duration::from_millis(300) {
                     // Cap the backoff sleep so we don't sleep past the deadline.
-                    let remaining = deadline.saturating_duration_since(Instant::now());
+                    let remaining = deadline.saturating_duration_since(pool_now());
                     if remaining.is_zero() {
                         return Err(NetError::Timeout);
                     }
@@ -334,7 +348,7 @@ impl<P: ConnectionProvider> PoolState<P> {
             // that are still in-flight when a winner is found.
             let in_flight = par_servers.iter().cloned().collect::<SmallVec<[_; 2]>>();
 
-            let batch_start = Instant::now();
+            let batch_start = pool_now();
             let mut requests = par_servers
                 .into_iter()
                 .map(|server| {
